@@ -153,7 +153,7 @@ func build(engine string, race bool) *built {
 	osm := filepath.Join(scratch, "osm")
 	err = copyTree(repoDir, osm, func(rel string, fi os.FileInfo) bool {
 		n := fi.Name()
-		return n == ".git" || strings.HasSuffix(n, ".pbf") || strings.HasSuffix(n, ".osm.bz2")
+		return n == ".git" || strings.HasSuffix(n, ".pbf")
 	})
 	if err != nil {
 		infra("copy of %s: %v", repoDir, err)
